@@ -62,6 +62,12 @@ type gotPoint struct {
 	val   float64
 	count uint64
 	sum   float64
+	// histograms
+	min, max       float64
+	hasMin, hasMax bool
+	zero           uint64    // exponential
+	bounds         []float64 // explicit
+	buckets        []uint64  // explicit
 }
 
 type gotMetric struct {
@@ -93,7 +99,14 @@ func numPts[N int64 | float64](dps []metricdata.DataPoint[N]) []gotPoint {
 func histPts[N int64 | float64](dps []metricdata.HistogramDataPoint[N]) []gotPoint {
 	out := make([]gotPoint, len(dps))
 	for i, d := range dps {
-		out[i] = gotPoint{key: renderSet(d.Attributes), count: d.Count, sum: float64(d.Sum)}
+		out[i] = gotPoint{key: renderSet(d.Attributes), count: d.Count, sum: float64(d.Sum),
+			bounds: append([]float64{}, d.Bounds...), buckets: append([]uint64{}, d.BucketCounts...)}
+		if v, ok := d.Min.Value(); ok {
+			out[i].min, out[i].hasMin = float64(v), true
+		}
+		if v, ok := d.Max.Value(); ok {
+			out[i].max, out[i].hasMax = float64(v), true
+		}
 	}
 	return out
 }
@@ -101,7 +114,13 @@ func histPts[N int64 | float64](dps []metricdata.HistogramDataPoint[N]) []gotPoi
 func expoPts[N int64 | float64](dps []metricdata.ExponentialHistogramDataPoint[N]) []gotPoint {
 	out := make([]gotPoint, len(dps))
 	for i, d := range dps {
-		out[i] = gotPoint{key: renderSet(d.Attributes), count: d.Count, sum: float64(d.Sum)}
+		out[i] = gotPoint{key: renderSet(d.Attributes), count: d.Count, sum: float64(d.Sum), zero: d.ZeroCount}
+		if v, ok := d.Min.Value(); ok {
+			out[i].min, out[i].hasMin = float64(v), true
+		}
+		if v, ok := d.Max.Value(); ok {
+			out[i].max, out[i].hasMax = float64(v), true
+		}
 	}
 	return out
 }
@@ -584,6 +603,9 @@ func run(c Case) ([]vk.Violation, vk.Info) {
 				info.ClassIf(s.explicitDefault && ra == raDrop && s.scopeEver, "view_explicit_default_vs_reader_drop(with measurements)")
 				info.ClassIf(s.explicitDefault && ra != raDrop && s.scopeEver, "view_explicit_default_vs_reader_other_aggregation(with measurements)")
 			}
+			for _, cl := range s.classes {
+				info.Class(cl)
+			}
 			overflow = overflow || s.sawOverflow
 			merge = merge || s.sawMerge
 			info.ClassIf(s.sawOverflow, "overflow/"+aggNames[s.agg.kind])
@@ -765,9 +787,11 @@ func compare(where string, m *readerModel, got []gotMetric, limit int, bad func(
 					bad("point_value", "%s: set %s reports %v, rule gives %v", desc, k, g.val, e.val)
 				}
 			default:
-				if g.count != e.count || (!s.noSum() && g.sum != e.sum) {
-					bad("point_value", "%s: set %s reports count %d sum %v, rule gives count %d sum %v", desc, k, g.count, g.sum, e.count, e.sum)
+				diffs, cls := checkHistPoint(s.agg, s.noSum(), g, e.f, k == overflowKey)
+				for _, d := range diffs {
+					bad("point_value", "%s: set %s reports %s", desc, k, d)
 				}
+				s.classes = append(s.classes, cls...)
 			}
 		}
 	}
@@ -802,6 +826,7 @@ func TestLimitModel(t *testing.T) {
 		Quick: 15000, Thorough: 200000,
 		Gen: genLimit, Run: run,
 	})
+	t.Log(statLine())
 }
 
 func TestViewsModel(t *testing.T) {
@@ -811,4 +836,5 @@ func TestViewsModel(t *testing.T) {
 		Quick: 15000, Thorough: 200000,
 		Gen: genViewsCase, Run: run,
 	})
+	t.Log(statLine())
 }
